@@ -874,6 +874,14 @@ func (fr *Frame) havocWrites(st *State, ws *dryCtx) {
 			if fr.dry != nil {
 				fr.dry.ghosts[g] = true
 			}
+		} else if strings.HasPrefix(g, "chanlen:") {
+			// the buffered length of a channel the loop sends on, not looked at before the loop
+			l := Var(st.eng.fresh("chanlen"), SInt)
+			st.assume(Le(Int(0), l))
+			st.ghost[g] = Scalar{l}
+			if fr.dry != nil {
+				fr.dry.ghosts[g] = true
+			}
 		}
 	}
 }
